@@ -42,6 +42,25 @@ def filterById (cfg : Cfg) (ops : List Op) : List Op :=
   let o1 := if cfg.exclIds.length > 0 then withIds ops cfg.exclIds true else ops
   if cfg.inclIds.length > 0 then withIds o1 cfg.inclIds false else o1
 
+/-! the shape of filter.go as the translator writes it (Gen/FilterRules.lean is regenerated on every run) -/
+inductive ListName where
+  | excludeTags | includeTags | excludeIds | includeIds
+deriving DecidableEq, Repr
+
+def Cfg.list (cfg : Cfg) : ListName → List String
+  | .excludeTags => cfg.exclTags
+  | .includeTags => cfg.inclTags
+  | .excludeIds => cfg.exclIds
+  | .includeIds => cfg.inclIds
+
+/-- a worker: the operations for which `has op set == exclude` (or `!=`, when the flag is false) are removed -/
+def workerOf (has : Op → List String → Bool) (removesWhenEqual : Bool) (ops : List Op) (set : List String) (exclude : Bool) : List Op :=
+  ops.filter fun op => if removesWhenEqual then has op set != exclude else has op set == exclude
+
+/-- the guarded passes, in order -/
+def runPasses (cfg : Cfg) (worker : List Op → List String → Bool → List Op) (ps : List (ListName × Bool)) (ops : List Op) : List Op :=
+  ps.foldl (fun o p => if (cfg.list p.1).length > 0 then worker o (cfg.list p.1) p.2 else o) ops
+
 /-- The two calls at the top of `Generate`. -/
 def filterDoc (cfg : Cfg) (ops : List Op) : List Op := filterById cfg (filterByTag cfg ops)
 
